@@ -104,6 +104,9 @@ def worker(spec):
             if len(a) != len(b) or any(x1[0] is not y1[0] or x1[1:] != y1[1:] for x1, y1 in zip(a, b)):
                 problems.append("frame %d: lowlevel entry point and extract() disagree" % i)
             res.count("frames_checked")
+        gcodes = [fr.pyframe.f_code for fr in st.frames if drive.is_generated(fr.pyframe)]
+        if len(gcodes) != len(set(gcodes)):
+            res.count("obs_with_recursive_activations")
         res.count("obs")
         if nontrivial:
             res.count("obs_nontrivial")
